@@ -131,7 +131,27 @@ def long_task_configs(tier):
 def configs(tier, seed):
     cs = C12.cases(tier, seed)
     n = 600 if tier == "thorough" else 24
-    return cs[::max(1, len(cs) // n)] + long_task_configs(tier)
+    # tiering-heavy configurations (observations parked in cold storage and
+    # brought back): what the buffer decides in a step must not depend on
+    # whether the run was paused at that step
+    lvl = "thorough" if tier == "thorough" else "quick"
+    park = common.add_algs(
+        common.thin(list(common.park2_scope(lvl)),
+                    108 if tier != "thorough" else 12),
+        lambda c: [{"kind": "queue"}], feasible_only=False)
+    from ..scopes import mkobs, mkcfg, mkcase, dag, CLUSTERS
+    wf = dag("fork", [2, 1, 2], [0, 1])
+    for sy in ((2, 3) if tier != "thorough" else (1, 2, 3, 4)):
+        for sz in ((14,) if tier != "thorough" else (10, 12, 14, 16)):
+            obs = [mkobs("x", 1, 4, 2, 1, 1, "w"),
+                   mkobs("y", sy, 4, 2, 1, 1, "w"),
+                   mkobs("z", sz, 2, 1, 1, 1, "w")]
+            cfg = mkcfg(CLUSTERS[3][0], obs, (20, 10), (40, 10), 3, 3)
+            for alg in ({"kind": "queue"}, {"kind": "batch", "p": 1,
+                                            "min": 1}):
+                park.append(("S-tiering-under-pause",
+                             mkcase(cfg, {"w": wf}, alg)))
+    return cs[::max(1, len(cs) // n)] + long_task_configs(tier) + park
 
 
 def check_fresh_resume(case, ref):
